@@ -284,44 +284,53 @@ where
         cell_key: CellKey,
         vertex: Vertex<K::Scalar, U, D>,
     ) -> Result<FlipInfo<D>, FlipError> {
-        // Edits bypass `insert`: drop the duplicate-detection index and locate hint so they are
-        // rebuilt from the edited vertex set (as `as_triangulation_mut` does).
-        self.triangulation_mut_for_edit()
-            .flip_k1_insert(cell_key, vertex)
+        let result = self.tri.flip_k1_insert(cell_key, vertex);
+        if result.is_ok() {
+            self.invalidate_caches_after_edit();
+        }
+        result
     }
 
     fn flip_k1_remove(&mut self, vertex_key: VertexKey) -> Result<FlipInfo<D>, FlipError> {
-        // Edits bypass `insert`: drop the duplicate-detection index and locate hint so they are
-        // rebuilt from the edited vertex set (as `as_triangulation_mut` does).
-        self.triangulation_mut_for_edit().flip_k1_remove(vertex_key)
+        let result = self.tri.flip_k1_remove(vertex_key);
+        if result.is_ok() {
+            self.invalidate_caches_after_edit();
+        }
+        result
     }
 
     fn flip_k2(&mut self, facet: FacetHandle) -> Result<FlipInfo<D>, FlipError> {
-        // Edits bypass `insert`: drop the duplicate-detection index and locate hint so they are
-        // rebuilt from the edited vertex set (as `as_triangulation_mut` does).
-        self.triangulation_mut_for_edit().flip_k2(facet)
+        let result = self.tri.flip_k2(facet);
+        if result.is_ok() {
+            self.invalidate_caches_after_edit();
+        }
+        result
     }
 
     fn flip_k3(&mut self, ridge: RidgeHandle) -> Result<FlipInfo<D>, FlipError> {
-        // Edits bypass `insert`: drop the duplicate-detection index and locate hint so they are
-        // rebuilt from the edited vertex set (as `as_triangulation_mut` does).
-        self.triangulation_mut_for_edit().flip_k3(ridge)
+        let result = self.tri.flip_k3(ridge);
+        if result.is_ok() {
+            self.invalidate_caches_after_edit();
+        }
+        result
     }
 
     fn flip_k2_inverse_from_edge(&mut self, edge: EdgeKey) -> Result<FlipInfo<D>, FlipError> {
-        // Edits bypass `insert`: drop the duplicate-detection index and locate hint so they are
-        // rebuilt from the edited vertex set (as `as_triangulation_mut` does).
-        self.triangulation_mut_for_edit()
-            .flip_k2_inverse_from_edge(edge)
+        let result = self.tri.flip_k2_inverse_from_edge(edge);
+        if result.is_ok() {
+            self.invalidate_caches_after_edit();
+        }
+        result
     }
 
     fn flip_k3_inverse_from_triangle(
         &mut self,
         triangle: TriangleHandle,
     ) -> Result<FlipInfo<D>, FlipError> {
-        // Edits bypass `insert`: drop the duplicate-detection index and locate hint so they are
-        // rebuilt from the edited vertex set (as `as_triangulation_mut` does).
-        self.triangulation_mut_for_edit()
-            .flip_k3_inverse_from_triangle(triangle)
+        let result = self.tri.flip_k3_inverse_from_triangle(triangle);
+        if result.is_ok() {
+            self.invalidate_caches_after_edit();
+        }
+        result
     }
 }
